@@ -10,6 +10,7 @@ every acknowledged result, every failure is explained (or is the documented tran
 and the final catalog and contents; the same state must be there after shutdown + reopen. A
 panicking or stuck session is a violation (stuck is decided on virtual time; a wall-clock
 watchdog on the multi-thread legs is only inconclusive)."""
+import os
 import random
 import sys
 
@@ -294,6 +295,10 @@ def run(tier, seed):
     rep.assumptions = ["per-session order only (no real-time order across sessions is required)",
                        "a failed statement must be a no-op that the model also rejects at that point, or the documented transient compaction conflict",
                        "the multi-thread legs are stress, not schedule control; a wall-clock watchdog there is inconclusive"]
+    if tier == "thorough" and not os.environ.get("VERIF_OVERLAY"):
+        import sanitize
+        sanitize.overlay(rep, "asan", timeout=7200)
+        sanitize.overlay(rep, "tsan", timeout=7200)
     return rep.finish()
 
 
